@@ -71,6 +71,9 @@ def run_case(case):
         Sm["profiles"] = (-u, v, Kx, Ky, Kz) if nm == "x" else (u, -v, Kx, Ky, Kz)
         qm = np.roll(np.flip(q0, axis=axis), 1, axis=axis)
         mpm = (((-im) % nx) * dx, mp[1]) if nm == "x" else (mp[0], ((-jm) % ny) * dy)
+        if case["idx"] % 2 and fp:
+            # the mirror image where it falls: west / south of the window origin (negative coordinate) - on the periodic domain the same point
+            mpm = (-im * dx, mp[1]) if nm == "x" else (mp[0], -jm * dy)
         if not fp:
             mpm = (0.0, 0.0)
         _, c1, f1 = run(Sm, qm, levels, footprint=fp, meas_pt=mpm, srf_bg_conc=bg)
